@@ -212,6 +212,83 @@ def _harness_b(eng, ctx):
     eng.note({'t': 'sample', 'v': {'harness': 'b', 'step_s': step, 'flag_term': str(z3.simplify(caps[0][min(1, n - 1)]))[:300]}})
 
 
+def harness_b2(eng, ctx):
+    """The increment threshold that match_all_storms hands to match_storms, in doubles."""
+    nplite.set_float_mode('F')
+    try:
+        step, n = ctx['step_s'], ctx['n']
+        cl = loader.load('spowtd.classify', 'F')
+        e = eng.fint('origin', 0, EPOCH_MAX - 1)
+        k = eng.fint('shift_steps', -(EPOCH_MAX // step), EPOCH_MAX // step)
+        ebv, kbv = eng.fbv('origin'), eng.fbv('shift_steps')
+        for _c in (ebv + kbv * step >= 0, ebv + (n + 1) * step < EPOCH_MAX, ebv + kbv * step + (n + 1) * step < EPOCH_MAX):
+            eng._assert(_c)
+        thr = eng.f64('thr_jump')
+        eng.assume(thr >= 2.0 ** -10)
+        eng.assume(thr <= 1.0e6)
+        caps = []
+        original = cl.match_storms
+
+        def spy(rain, head, rain_threshold, jump_threshold):
+            caps.append(jump_threshold)
+            raise _Captured()
+        cl.match_storms = spy
+        try:
+            for o in (e, e + k * step):
+                epochs = [o + i * step for i in range(n + 1)]
+                conn = symsql.Connection()
+                dbstate.build(conn, epochs, [True] * (n + 1), [0.0] * n, [0.125] * n, [float(10 + i) for i in range(n + 1)], step)
+                try:
+                    cl.match_all_storms(conn.cursor(), 1, 4.0, thr)
+                except _Captured:
+                    pass
+                except Exception as ex:
+                    eng.fail_exception(ex, label='C07: match_all_storms fails in double precision')
+                    return
+        finally:
+            cl.match_storms = original
+        if not eng.prove(len(caps) == 2, 'C07: increment threshold captured at both origins'):
+            return
+        a, b = (symx._lift_f64(c) for c in caps)
+        eng.prove_same_under_shift(a, b, ['origin!bv', 'shift_steps!bv'],
+                                   'C07: rise increment threshold does not depend on the origin (double precision)',
+                                   detail='step %d s' % step)
+        eng.note({'t': 'reached'})
+    finally:
+        nplite.set_float_mode('R')
+
+
+def replay_b2(failure, step):
+    """Two real runs of match_all_storms's threshold: recorded by wrapping match_storms."""
+    import sqlite3
+    m = model_fractions(failure.get('model'))
+    e, k = int(m.get('origin', 0)), int(m.get('shift_steps', 0))
+    thr = float(m.get('thr_jump', 1.0))
+    real = loader.real_module('spowtd.classify')
+    got = []
+    orig = real.match_storms
+
+    def spy(rain, head, rt, jt):
+        got.append(float(jt))
+        return orig(rain, head, rt, jt)
+    real.match_storms = spy
+    info = {'origins': [e, e + k * step], 'thr_jump_mm_h': thr, 'step_s': step}
+    try:
+        for o in (e, e + k * step):
+            # the same stretch as in the harness: 4 grid instants, 3 joined samples
+            epochs = [o + i * step for i in range(4)]
+            texts = dbstate.texts_for(epochs, [True] * 4, [Fraction(0)] * 3, [Fraction(1, 8)] * 3, [Fraction(10 + i) for i in range(4)], step)
+            with pipeline.RealRun(texts) as rr:
+                err = rr.load() or rr.classify(4.0, thr)
+                if err is not None:
+                    info['error'] = repr(err)
+                    return False, info
+    finally:
+        real.match_storms = orig
+    info['increment_threshold_mm'] = got
+    return len(got) == 2 and got[0] != got[1], info
+
+
 def replay_b(failure, step, n):
     """Two real CLI runs (load + classify) of the same record at the two origins."""
     m = model_fractions(failure.get('model'))
@@ -274,6 +351,10 @@ class C07(Check):
                                engine_kw={'query_timeout_ms': 120000 if quick else 600000, 'oneshot_tactic': 'qffp'})
             self.absorb(exp, need_paths=1)
 
+        for s in steps_b:
+            exp = symx.explore(harness_b2, {'step_s': s, 'n': 3}, name='increment_threshold_fp[step=%d]' % s, workers=1,
+                               engine_kw={'query_timeout_ms': 120000 if quick else 600000, 'oneshot_tactic': 'qffp'})
+            self.absorb(exp, need_paths=1)
         # witness replays: the real CLI at two concrete origins (incl. a date where
         # epoch/3600 rounds differently) must give identical flags and master curves
         for s in steps_a2:
@@ -296,6 +377,8 @@ class C07(Check):
 
     def replay(self, failure):
         h = failure['harness']
+        if h.startswith('increment_threshold_fp'):
+            return replay_b2(failure, int(h.split('=')[1].rstrip(']')))
         if h.startswith('rise_flags_fp'):
             step = int(h.split('=')[1].rstrip(']'))
             return replay_b(failure, step, 2)
